@@ -3,7 +3,7 @@ import gzip
 import time
 
 from hashlib import blake2b
-from threading import Lock, current_thread
+from threading import Lock, RLock, current_thread
 from pathlib import Path
 from contextlib import nullcontext, contextmanager
 from collections.abc import Iterator
@@ -159,7 +159,9 @@ class ConcurrentCacher(Cacher[_K, _V]):
         self._digest_size = 2
 
         self._cache = cache
-        self._lock  = lock or Lock()
+        #re-entrant: the cyclic collector can close an abandoned reader (whose finally releases its read lock) while this very
+        #thread is inside one of the critical sections below; with a plain Lock that thread would then wait for itself forever.
+        self._lock  = lock or RLock()
         self._array = list or [0]*2**(8*self._digest_size)
 
         self._write_waits = 0 # for testing purposes only. won't be accurate in production.
